@@ -264,6 +264,8 @@ struct World {
     /// collection whitelists, id = index + 1
     wls: Vec<String>,
     airdrop: Option<String>,
+    /// its whitelist-immutable (`find_imm`, once)
+    imm_addr: Option<String>,
     // ---- harness-side bookkeeping for the monitors (what the harness configured and did, not what the contracts say)
     /// id of the whitelist the harness attached to the minter with a successful SetWhitelist (0 = none)
     attached: usize,
@@ -285,7 +287,7 @@ struct World {
 #[derive(Clone, Debug, PartialEq)]
 struct Snap {
     bank: BTreeMap<(String, String), u128>,
-    counters: BTreeMap<String, u32>,
+    counters: BTreeMap<String, u64>,
     members: Vec<BTreeSet<String>>,
 }
 /// the airdrop's list as seen through the queries
@@ -332,6 +334,7 @@ impl World {
             minter,
             wls,
             airdrop: None,
+            imm_addr: None,
             attached,
             template: String::new(),
             listed: BTreeSet::new(),
@@ -354,16 +357,22 @@ impl World {
         let st = self.mw.app.contract_storage(&Addr::unchecked(a));
         sg_eth_airdrop::state::ADDRS_TO_MINT_COUNT.may_load(&*st, eth).ok().flatten().unwrap_or(0) as u64
     }
-    fn counters(&self) -> BTreeMap<String, u32> {
+    fn counters(&self) -> BTreeMap<String, u64> {
         let Some(a) = &self.airdrop else { return BTreeMap::new() };
         let st = self.mw.app.contract_storage(&Addr::unchecked(a));
-        sg_eth_airdrop::state::ADDRS_TO_MINT_COUNT.range(&*st, None, None, Order::Ascending).filter_map(|r| r.ok()).collect()
+        sg_eth_airdrop::state::ADDRS_TO_MINT_COUNT.range(&*st, None, None, Order::Ascending).filter_map(|r| r.ok()).map(|(k, v)| (k, v as u64)).collect()
     }
-    /// the whitelist-immutable the reply registered (typed config of the airdrop contract)
+    /// the whitelist-immutable the airdrop contract created: the contract with that code id whose creator is the airdrop
+    /// contract (found by scanning the chain's contracts: no storage layout, no address numbering, no event names)
     fn imm(&self) -> Option<String> {
+        self.imm_addr.clone()
+    }
+    fn find_imm(&self) -> Option<String> {
         let a = self.airdrop.as_ref()?;
-        let st = self.mw.app.contract_storage(&Addr::unchecked(a));
-        sg_eth_airdrop::state::CONFIG.may_load(&*st).ok().flatten()?.whitelist_address
+        let code = self.mw.wl_code(WlKind::Immutable);
+        (0..64).map(|i| format!("contract{i}")).find(|c| {
+            self.mw.app.wrap().query_wasm_contract_info(c.as_str()).map(|i| i.code_id == code && i.creator == *a).unwrap_or(false)
+        })
     }
     fn members_of(&self, wl: &str) -> BTreeSet<String> {
         let st = self.mw.app.contract_storage(&Addr::unchecked(wl));
@@ -490,6 +499,7 @@ impl S {
                 match w.mw.instantiate(code, &sender, &msg, &funds, None) {
                     Ok(a) => {
                         w.airdrop = Some(a.clone());
+                        w.imm_addr = w.find_imm();
                         w.template = tpl;
                         w.listed = addrs.into_iter().collect();
                         // never-listed strings: a fixed one, and the other casings of the listed ones
@@ -568,7 +578,7 @@ impl S {
                                 after.members[i] == before.members[i]
                             }
                         });
-                    let csum = |s: &Snap| s.counters.values().map(|c| *c as u64).sum::<u64>();
+                    let csum = |s: &Snap| s.counters.values().sum::<u64>();
                     let foreign_counter = after
                         .counters
                         .iter()
@@ -897,7 +907,7 @@ fn schema_variants(root: &Value) -> Vec<(String, Option<Value>)> {
 }
 
 /// minimal JSON value for a schema: integers = k, strings = `who` when the field name looks like an account, else `eth`
-/// (an address string that is NOT on the list), options = null, arrays = one element
+/// (an address string that is NOT on the list; for the second filling a number), options = null, arrays = one element
 fn fill(s: &Value, defs: &Value, k: u64, hint: &str, who: &str, eth: &str, depth: u32) -> Value {
     if depth > 8 {
         return Value::Null;
@@ -935,11 +945,14 @@ fn fill(s: &Value, defs: &Value, k: u64, hint: &str, who: &str, eth: &str, depth
     match ty.as_str() {
         "integer" | "number" => json!(k),
         "string" => {
+            // unknown text fields get the never-listed Ethereum address the list monitors watch, account-like ones the sender
             let h = hint.to_lowercase();
             if h.contains("eth") || h.contains("addresses") || h.contains("members") {
                 json!(eth)
-            } else if ["addr", "recipient", "to", "whitelist", "contract", "owner", "sender", "admin", "wallet", "minter"].iter().any(|w| h.contains(w)) {
+            } else if h == "to" || ["addr", "recipient", "whitelist", "contract", "owner", "sender", "admin", "wallet", "minter", "beneficiary"].iter().any(|w| h.contains(w)) {
                 json!(who)
+            } else if k == 1 {
+                json!(eth)
             } else {
                 json!(k.to_string())
             }
